@@ -21,7 +21,7 @@ import sys
 from typing import Any
 
 from verif import core, sysfi
-from verif.props import c05_txn, c07
+from verif.props import c05_txn, c07, c07_file_gen
 from verif.translators import tsession
 
 RULE = (
@@ -469,8 +469,10 @@ def search(chk: core.Check) -> None:
 def main(chk: core.Check) -> int:
     chk.rule = RULE
     tsession.regenerate(chk)      # Generated/RdbSessions.lean from today's /repo, before the theorems are re-checked against it
+    c07_file_gen.regenerate(chk)  # T-file: Generated/JournalFileMethods.lean (append_logs / read_logs / lock classes of journal/_file.py)
     if not getattr(chk, "no_prove", False):
-        chk.prove(["OptunaVerif.Props.C05", "OptunaVerif.Props.C05Txn"])
+        chk.prove(["OptunaVerif.Props.C05", "OptunaVerif.Props.C05Txn", c07_file_gen.MODULE])
+        c07_file_gen.explain_proof_failure(chk)
     quick = chk.tier == "quick"
     import time as _t
     t0 = _t.time()
